@@ -83,6 +83,29 @@ def scenarios(tier, seed):
                 continue
             add("mn", mname, nodes, card, dict(scopes=scopes))
             add("fg", mname, nodes, card, dict(scopes=scopes))
+    # operation sequences on ONE engine object (stale calibration state must not leak into later answers)
+    SEQS = [["max_calibrate", "query"], ["calibrate", "query"], ["max_calibrate", "map_query"], ["query", "max_calibrate", "query"],
+            ["calibrate", "max_calibrate", "query"], ["map_query", "query"]]
+    for sname in ["chain3", "collider3", "fork3", "chain4"]:
+        nodes, parents = C.SHAPES[sname]
+        card = {v: 2 for v in nodes}
+        for si, seq in enumerate(SEQS):
+            for q in nodes[:2] + nodes[-1:]:
+                k += 1
+                d = dict(family=f"bp/bn/seq", kind="bn", model=sname, nodes=nodes, card=card, op="seq", seq=seq, q=[q], ev={}, joint=True,
+                         states=C.STATE_STYLES[k % len(C.STATE_STYLES)], hashseed=k % nh, budget_s=50, parents=parents, names="str")
+                if len(nodes) == 4:
+                    d["fixed_cpds"] = [nodes[(k + 1) % 4], nodes[(k + 2) % 4]]
+                    d["fixed_seed"] = k
+                out.append(d)
+    for mname in ["mchain3", "mchain4"]:
+        nodes, scopes = {**MNS, **MN_EXTRA}[mname]
+        card = {v: 2 for v in nodes}
+        for seq in SEQS[:4]:
+            for q in nodes[:1] + nodes[-1:]:
+                k += 1
+                out.append(dict(family=f"bp/mn/seq", kind="mn", model=mname, nodes=nodes, card=card, op="seq", seq=seq, q=[q], ev={}, joint=True,
+                                states=C.STATE_STYLES[k % len(C.STATE_STYLES)], hashseed=k % nh, budget_s=50, scopes=scopes, amplify=True))
     for jname, (nodes, cliques, edges) in JTS.items():
         for card in C.card_options(nodes, tier)[:2]:
             add("jt", jname, nodes, card, dict(scopes=[list(c) for c in cliques], jt_edges=edges))
@@ -172,6 +195,24 @@ def run(desc, M):
     bp = BeliefPropagation(model)
     op = desc["op"]
     nodes_before = sorted(repr(x) for x in model.nodes())
+    if op == "seq":
+        qv = desc["q"][0]
+        p1 = marg(desc, u, {})
+        for step in desc["seq"]:
+            if step in ("calibrate", "max_calibrate"):
+                getattr(bp, step)()
+            elif step == "query":
+                r = bp.query([nm[qv]], show_progress=False)
+                for a in C.assignments(desc, [qv]):
+                    M.eq(read(desc, nm, r, a) * p1, marg(desc, u, a), f"query after {desc['seq']} equals the marginal of the joint")
+            elif step == "map_query":
+                r = bp.map_query([nm[qv]], show_progress=False)
+                names_v = C.expected_state_names(desc, qv)
+                if M.check(r.get(nm[qv]) in names_v, "map_query value is a state name", detail=str(r)):
+                    star = names_v.index(r[nm[qv]])
+                    for a in C.assignments(desc, [qv]):
+                        M.le(marg(desc, u, a), marg(desc, u, {qv: star}), f"map_query after {desc['seq']} maximises the marginal")
+        return
     if op in ("calibrate", "max_calibrate"):
         getattr(bp, op)()
         cb, sb = bp.get_clique_beliefs(), bp.get_sepset_beliefs()
